@@ -135,12 +135,8 @@ Definition hash_by (typ : Z) (d : list N) : list N :=
   if (typ =? 1)%Z then sha256 d else if (typ =? 2)%Z then sha384 d else sha512 d.
 Definition CHDR_B : list N := [99; 104; 100; 114; 1; 0; 2; 0]%N.          (* "chdr", minor 1, major 2 *)
 Definition IMGM_B : list N := [105; 109; 103; 109]%N.                      (* "imgm" *)
-Definition rom_cb_v21 (rkth : list N) (s : list N) (off : nat) : option cb21_info :=
-  if Nat.ltb (length s) (off + 16) then None
-  else if negb (eqb_list (slice s off (off + 8)) CHDR_B) then None
-  else let size := natz (rd32 (off + 8) s) in
-  if Nat.ltb (length s) (off + size) then None
-  else let cb := slice s off (off + size) in
+(* everything behind the 12-byte header: root key record and optional ISK certificate; cb = the whole block, size = its length *)
+Definition rom_cb_v21_body (rkth cb : list N) (size : nat) : option cb21_info :=
   let flags := rd32 12 cb in
   let ca := zbit flags 2147483648 in
   let used := natz (Z.land (Z.shiftr flags 8) 15) in
@@ -173,6 +169,12 @@ Definition rom_cb_v21 (rkth : list N) (s : list N) (off : nat) : option cb21_inf
   else Some {| c2_size := size;
                c2_obl := [IskSig (typ + 1) root_pub (slice cb 12 (q + sig_off)) (slice cb (q + sig_off) size)];
                c2_alg := ityp + 1; c2_pub := slice cb (q + 12) (q + 12 + 2 * il) |}.
+Definition rom_cb_v21 (rkth : list N) (s : list N) (off : nat) : option cb21_info :=
+  if Nat.ltb (length s) (off + 16) then None
+  else if negb (eqb_list (slice s off (off + 8)) CHDR_B) then None
+  else let size := natz (rd32 (off + 8) s) in
+  if Nat.ltb (length s) (off + size) then None
+  else rom_cb_v21_body rkth (slice s off (off + size)) size.
 
 Definition rom_signed_v21 (cfg : rom_cfg) (keys : rom_keys) (ty : Z) (s : list N) : option rom_ok :=
   let off := natz (rd32 40 s) in
